@@ -200,9 +200,12 @@ def run_point(kind, gk, mi, k, pre):
     if after != before:
         bad.append(("files in the output directory after the failure", before, after))
     if pre == "existing":
-        with open(out) as f:
-            if f.read() != "PREVIOUS COMPLETE CONTENT\n":
-                bad.append(("previous complete file was damaged",))
+        if not os.path.exists(out):
+            bad.append(("previous complete file is gone",))
+        else:
+            with open(out) as f:
+                if f.read() != "PREVIOUS COMPLETE CONTENT\n":
+                    bad.append(("previous complete file was damaged",))
     else:
         # a later run without --overwrite must produce the complete file
         try:
